@@ -164,7 +164,7 @@ func genAmbient() {
 	})
 	var sb strings.Builder
 	sb.WriteString("(* GENERATED by /verif/translator (ambient.go) from the sources of the current tree. Do not edit. *)\n")
-	sb.WriteString("From Coq Require Import String List.\nImport ListNotations.\nOpen Scope string_scope.\n\n")
+	sb.WriteString("From Coq Require Import String List NArith.\nImport ListNotations.\nOpen Scope string_scope.\n\n")
 	sb.WriteString("(* (package directory, file, qualified name): references, in the non-test files of the library packages that are\n   built for a target with tables or a stub target, to the process environment, the file system, the clock, the\n   machine, the scheduler's configuration *)\n")
 	sb.WriteString("Definition ambient_refs : list (string * string * string) := [")
 	for i, r := range refs {
@@ -195,6 +195,91 @@ func genAmbient() {
 		}
 		fmt.Fprintf(&sb, "\n  (%s, %s, %s)", coqString(r.pkg), coqString(r.file), coqString(r.name))
 	}
-	sb.WriteString("].\n")
+	sb.WriteString("].\n\n")
+	// the command-line interfaces: every flag a command registers (package flag, directly or through a FlagSet)
+	for _, c := range [][2]string{{"cmd/seccomp-profiler", "profiler_flags"}, {"cmd/sandbox", "sandbox_flags"}} {
+		names := collectFlags(c[0])
+		sb.WriteString("(* the flags " + c[0] + " registers (name, kind of registration), sorted: what a caller can pass besides the positional arguments *)\n")
+		sb.WriteString("Definition " + c[1] + " : list (string * string) := [")
+		for i, n := range names {
+			if i > 0 {
+				sb.WriteString("; ")
+			}
+			fmt.Fprintf(&sb, "(%s, %s)", coqString(n[0]), coqString(n[1]))
+		}
+		sb.WriteString("].\n\n")
+	}
+	sb.WriteString(genEndian())
 	writeFile("GenAmbient.v", sb.String())
+}
+
+// collectFlags lists the flags registered in the non-test files of a command: calls X.String / Bool / Int / ... ("name" first)
+// and X.StringVar / BoolVar / ... / Var (name second) with a string literal for the name, on package flag or on any value
+// (a FlagSet). A name that is not a literal is listed as "?".
+func collectFlags(dir string) [][2]string {
+	ents, err := os.ReadDir(filepath.Join(*repo, dir))
+	if err != nil {
+		return nil
+	}
+	direct := set("String", "Bool", "Int", "Int64", "Uint", "Uint64", "Float64", "Duration")
+	var out [][2]string
+	fset := token.NewFileSet()
+	for _, e := range ents {
+		n := e.Name()
+		if e.IsDir() || !strings.HasSuffix(n, ".go") || strings.HasSuffix(n, "_test.go") {
+			continue
+		}
+		f, err := parser.ParseFile(fset, filepath.Join(*repo, dir, n), nil, 0)
+		if err != nil {
+			die("parse %s: %v", n, err)
+		}
+		usesFlag := false
+		for _, im := range f.Imports {
+			if p, _ := strconv.Unquote(im.Path.Value); p == "flag" || strings.HasSuffix(p, "/pflag") {
+				usesFlag = true
+			}
+		}
+		if !usesFlag {
+			continue
+		}
+		ast.Inspect(f, func(nd ast.Node) bool {
+			call, ok := nd.(*ast.CallExpr)
+			if !ok {
+				return true
+			}
+			se, ok := call.Fun.(*ast.SelectorExpr)
+			if !ok {
+				return true
+			}
+			m := se.Sel.Name
+			idx := -1
+			switch {
+			case direct[m]:
+				idx = 0
+			case m == "Var" || m == "Func" || m == "BoolFunc" || m == "TextVar" || (strings.HasSuffix(m, "Var") && direct[strings.TrimSuffix(m, "Var")]):
+				idx = 1
+				if m == "Func" || m == "BoolFunc" {
+					idx = 0
+				}
+			}
+			if idx < 0 || len(call.Args) <= idx || len(call.Args) < 2 {
+				return true
+			}
+			name := "?"
+			if lit, ok := call.Args[idx].(*ast.BasicLit); ok && lit.Kind == token.STRING {
+				name, _ = strconv.Unquote(lit.Value)
+			} else if idx == 0 && !direct[m] {
+				return true
+			} else if _, isLit := call.Args[idx].(*ast.BasicLit); !isLit {
+				// not a literal: only count it when the receiver is package flag itself
+				if id, ok := se.X.(*ast.Ident); !ok || id.Name != "flag" {
+					return true
+				}
+			}
+			out = append(out, [2]string{name, m})
+			return true
+		})
+	}
+	sort.Slice(out, func(i, j int) bool { return out[i][0] < out[j][0] || (out[i][0] == out[j][0] && out[i][1] < out[j][1]) })
+	return out
 }
